@@ -71,6 +71,13 @@ FINISH["rule"] += (
     "[global] renew_delay is judged through the running daemon as well."
 )
 
+FINISH["rule"] += (
+    " (6) the limits of read_cnf / get_hook_rec met exactly (py/ext/depthlim.py, counted as dim:limits:*): include "
+    "chains, a cycle and a repeated file one below / at / above MAX_INCLUDE_DEPTH; group chains around "
+    "MAX_HOOK_GROUP_DEPTH; flat, doubling and hollow groups around MAX_HOOK_GROUP_MEMBERS visited members, on a "
+    "certificate and on an account."
+)
+
 ROOT = "@ROOT@"
 DAY = 86400
 GLOBAL_OPTS = ["accounts_directory", "cert_file_group", "cert_file_mode", "cert_file_user", "cert_file_ext",
@@ -888,6 +895,38 @@ def hazard_specs():
     return out
 
 
+def limit_specs():
+    """(6) the limits of read_cnf / get_hook_rec (MAX_INCLUDE_DEPTH, MAX_HOOK_GROUP_DEPTH, MAX_HOOK_GROUP_MEMBERS)
+    met exactly — one below, at, one and two above: the families of py/ext/depthlim.py; model and code
+    must agree on where each limit bites."""
+    from ext import depthlim
+    D, M, I = depthlim.consts(gen.gen_consts())
+    out = []
+
+    def main_cfg(**kw):
+        c = {"global": base_global(), "endpoint": [mk_endpoint("e1")], "hook": [mk_hook("h1", "1")],
+             "account": [mk_account("a1")], "certificate": [mk_cert("c1", hooks=["h1"])]}
+        c.update(kw)
+        return c
+    for fam in depthlim.hook_families(D, M, "h1", deep=False):
+        if "isolated" in fam["tags"]:
+            continue                    # judged by C19 (a regression there is a hang, not a wrong answer)
+        for where in ("certificate", "account"):
+            c = main_cfg(group=fam["groups"])
+            c[where][0]["hooks"] = [fam["top"]]
+            out.append({"label": "limits:%s:%s" % (fam["label"], where), "kind": "hazard", "files": {"main.toml": c},
+                        "expect": fam["expect"], "dim": "limits:" + fam["label"]})
+    for fam in depthlim.include_families(I, deep=False):
+        files = {}
+        for rel, incs in fam["files"].items():
+            files[rel] = main_cfg(include=incs) if rel == "main.toml" else {"include": incs}
+        last = sorted(r for r in files if r != "main.toml")[-1]
+        files[last]["hook"] = [mk_hook("h-" + last.replace(".", "-"), "deep")]
+        out.append({"label": "limits:" + fam["label"], "kind": "hazard", "files": files, "expect": fam["expect"],
+                    "dim": "limits:" + fam["label"]})
+    return out
+
+
 # directory names that are also glob patterns, with a sibling directory each pattern would match
 META_DIRS = [("conf[1]", "conf1"), ("a*b", "aXYb"), ("q?", "qZ"), ("m[!x]n", "myn"), ("plain", None)]
 
@@ -1557,6 +1596,7 @@ def run(ctx):
                 ("corpus", [c for c in vlib.corpus("C14") if "files" in c])]
         fams.insert(1, ("patterns-more", pattern_more_specs(ctx)))
         fams.insert(4, ("metachar", metachar_family()))
+        fams.append(("limits", limit_specs()))
         for name, specs in fams:
             if specs:
                 check_specs(ctx, specs, os.path.join(scratch, name))
